@@ -15,7 +15,7 @@ Proof.
 Qed.
 
 Lemma memn_false x l : memn x l = false <-> ~ In x l.
-Proof. rewrite <- memn_In. destruct (memn x l); split; intros; try congruence. exfalso; auto. Qed.
+Proof. rewrite <- memn_In. destruct (memn x l); split; intro H; try congruence; try reflexivity. Qed.
 
 Lemma memn_spec x l : reflect (In x l) (memn x l).
 Proof. apply iff_reflect. symmetry. apply memn_In. Qed.
@@ -28,7 +28,7 @@ Proof.
 Qed.
 
 Lemma memN_false x l : memN x l = false <-> ~ In x l.
-Proof. rewrite <- memN_In. destruct (memN x l); split; intros; try congruence. exfalso; auto. Qed.
+Proof. rewrite <- memN_In. destruct (memN x l); split; intro H; try congruence; try reflexivity. Qed.
 
 (* ------------------------------------------------------------------ set_nth / upd_nth *)
 
@@ -128,7 +128,7 @@ Qed.
 
 Lemma insert_by_perm w x l : Permutation (insert_by w x l) (x :: l).
 Proof.
-  induction l as [|y l IH]; cbn; [reflexivity|].
+  induction l as [|y l IH]; cbn [insert_by]; [reflexivity|].
   destruct (w x <? w y); [|reflexivity].
   rewrite IH. apply perm_swap.
 Qed.
@@ -143,7 +143,7 @@ Definition desc (w : nat -> nat) : list nat -> Prop := StronglySorted (fun x y =
 
 Lemma insert_by_desc w x l : desc w l -> desc w (insert_by w x l).
 Proof.
-  unfold desc. induction 1 as [|y l Hs IH Hy]; cbn; [repeat constructor|].
+  unfold desc. induction 1 as [|y l Hs IH Hy]; cbn [insert_by]; [repeat constructor|].
   destruct (Nat.ltb_spec (w x) (w y)) as [Hlt|Hge].
   - constructor; [assumption|].
     rewrite Forall_forall in *. intros z Hz.
@@ -169,15 +169,15 @@ Proof. apply Permutation_NoDup. symmetry. apply sort_by_weight_perm. Qed.
 
 Lemma insert_sorted_In x l y : In y (insert_sorted x l) <-> y = x \/ In y l.
 Proof.
-  induction l as [|a l IH]; cbn; [intuition|].
-  destruct (x <? a); cbn; [intuition|].
-  destruct (Nat.eqb_spec x a) as [->|Hne]; cbn; [intuition|].
+  induction l as [|a l IH]; cbn [insert_sorted In]; [intuition|].
+  destruct (x <? a); cbn [In]; [intuition|].
+  destruct (Nat.eqb_spec x a) as [->|Hne]; cbn [In]; [intuition|].
   rewrite IH. intuition.
 Qed.
 
 Lemma insert_sorted_sorted x l : StronglySorted lt l -> StronglySorted lt (insert_sorted x l).
 Proof.
-  induction 1 as [|a l Hs IH Ha]; cbn; [repeat constructor|].
+  induction 1 as [|a l Hs IH Ha]; cbn [insert_sorted]; [repeat constructor|].
   destruct (Nat.ltb_spec x a) as [Hlt|Hge].
   - constructor; [constructor; assumption|].
     constructor; [assumption|]. rewrite Forall_forall in *. intros z Hz. specialize (Ha z Hz). lia.
